@@ -790,11 +790,16 @@ impl<'tcx> Extract<'tcx> {
                     }
                     let mut items = vec![];
                     for it in tcx.associated_items(did).in_definition_order() {
-                        items.push(J::Obj(vec![
+                        let mut io = vec![
                             ("name", J::s(it.name().to_string())),
                             ("kind", J::s(format!("{:?}", it.tag()))),
                             ("key", J::s(self.fn_key(it.def_id))),
-                        ]));
+                        ];
+                        if format!("{:?}", it.tag()) == "Type" {
+                            let t = tcx.type_of(it.def_id).instantiate_identity().skip_norm_wip();
+                            io.push(("ty", self.ty(t)));
+                        }
+                        items.push(J::Obj(io));
                     }
                     o.push(("items", J::Arr(items)));
                     impls.push(J::Obj(o));
